@@ -858,6 +858,10 @@ func streamCont(o *Out, r *rand.Rand, n int, thorough bool) {
 		{"a = make([]int64, 1, 4)\nc = a + 5\ntry {\nd = a + [7, 8, \"x\"]\n} catch e {\n}\nc", "[]int64[int64:0 int64:5]"},
 		{"a = make([][]int64, 1, 4)\nc = a + [[5]]\ntry {\na += [[7], [\"x\"]]\n} catch e {\n}\nc[1]", "[]int64[int64:5]"},
 		{"a = make([]string, 0, 4)\nc = a + \"keep\"\ntry {\na += [\"w\", nil]\n} catch e {\n}\nc", "[]string[string:" + hexOf("keep") + "]"},
+		// a struct value is a value: the copy of a module (assignment of the module value) gets struct values of its own
+		{"module mm {\ns = make(S)\n}\nm2 = mm\nm2.s.A = 5\n[mm.s.A, m2.s.A]", "[]iface[int64:0 int64:5]"},
+		{"module mm {\ns = make(S)\ns.A = 1\n}\nm2 = mm\nmm.s.A = 7\n[mm.s.A, m2.s.A]", "[]iface[int64:7 int64:1]"},
+		{"module mm {\nt = make([]int64, 1)\n}\nm2 = mm\nm2.t[0] = 5\nmm.t[0]", "int64:5"},
 		{"x = make(S)\ny = x\ny.A = 4\n[x.A, y.A]", "SKIP"},
 		{"x = make(S)\nx.Nope = 1", "ERROR"}, {"x = make(S)\nx.Nope", "ERROR"}, {"x = make(S)\nx.A = 3\nx.A", "int64:3"},
 		{"x = make(S)\nx.C = [1, 2]\nx.C[1]", "int64:2"}, {"x = make(S)\nx.D = {\"a\": 1}\nx.D.a", "int64:1"}, {"x = make(S)\nx.G = [1]\nx.G", "[]iface[int64:1]"},
